@@ -17,6 +17,8 @@ plain access that is not ordered after an earlier conflicting one, and the two a
 * unknown event kinds are tolerated only when they are pure markers: a kind of the shim vocabulary
   that does not parse, or an unknown kind that mentions a memory order or a known
   mutex / atomic / condition variable, is rejected;
+* the window events of the multi-word payload: `pwb x` (modification of `x` starts) is a write of `x` like
+  its end `pwr x l`; `cpb dst src` is a read of `src`, `cpe dst src l` a write of `dst` (as `LR.toHB`);
 * `cfg lockfam _ _ 0` (locking disabled by the user, `guarded_opt(false)`): plain accesses are not
   checked (the user opted out of protection; nothing is claimed).
 
@@ -37,7 +39,7 @@ def failOrd : Ord → Ord
 /-- kinds printed by the shim / payload / tap: they must parse -/
 def vocabulary : List String :=
   ["ald", "ast", "axc", "rmw", "cas", "mlk", "mtl", "mtf", "mul", "slk", "stl", "stf", "sul",
-   "cwt", "cwk", "cna", "cn1", "yld", "slp", "prd", "pwr", "pld", "pst"]
+   "cwt", "cwk", "cna", "cn1", "yld", "slp", "prd", "pwr", "pld", "pst", "pwb", "cpb", "cpe"]
 
 /-- client markers known to be pure (no synchronisation content) -/
 def markers : List String :=
@@ -104,6 +106,11 @@ def parseLine (d : DSt) (ts : List String) : Parsed :=
       | some od, "1" => mk o (fun a => .rmw a od) "cas-ok" true
       | some od, "0" => mk o (fun a => .ld a (failOrd od)) "cas-fail" true
       | _, _ => bad "malformed-cas"
+  -- whole-object windows of the multi-word payload (vpayload_lr.hpp): both ends of an in-place modification are
+  -- writes; a copy assignment reads its source at the begin and writes its target at the end ("?" = a temporary)
+  | ["pwb", x] => mk x (fun x => .wr x) "payload" false
+  | ["cpb", _, y] => if y = "?" then nop "marker" else mk y (fun y => .rd y) "payload" false
+  | ["cpe", x, _, _] => if x = "?" then nop "marker" else mk x (fun x => .wr x) "payload" false
   | ["mlk", m] => mk m (fun m => .acq m .X) "lock" true
   | ["mul", m] => mk m (fun m => .rel m .X) "unlock" true
   | ["slk", m] => mk m (fun m => .acq m .S) "lock" true
@@ -128,7 +135,7 @@ def parseLine (d : DSt) (ts : List String) : Parsed :=
       else if (ordOf m).isSome ∨ (ordOf ok).isSome ∨ d.syncNames.contains m ∨ d.syncNames.contains ok then
         bad "unknown-sync-looking-event" else nop "marker"
   | ["cwk", cv, m, r] =>
-      if r = "notified" ∨ r = "spurious" ∨ r = "timeout" then
+      if r = "notified" ∨ r = "spurious" ∨ r = "timeout" ∨ r = "late" then
         { (mk m (fun m => .acq m .X) "cv-wake" true) with syncNames := addSync (addSync d.syncNames m) cv }
       else bad "malformed-cwk"
   | ["cna", cv] => { (nop "notify") with syncNames := addSync d.syncNames cv }
